@@ -23,7 +23,9 @@ RULE = ('cases = seeded histories of 6-16 API calls (6 joins, 5 filters x filter
         'over a pool of shared DataFrames and shared tokenizers (set-mode, bag-mode, q-gram set-mode, '
         'the implicit default of edit_distance_join); every call is snapshotted before/after and '
         're-run in isolation; a third of the histories hold values of 60-150 tokens; every filter '
-        'object that served in a history is compared with a fresh one on 250-2500 pairs. Non-trivial = history with at least one tokenizer flag flip observed '
+        'object that served in a history is compared with a fresh one on 250-2500 pairs; module-level '
+        'state of the library is compared around every call and, once it changed, calls are also '
+        'compared with runs in a process of their own. Non-trivial = history with at least one tokenizer flag flip observed '
         'or at least 5 completed calls; distinct = history seed.')
 ASSUMPTIONS = ['py_stringmatching tokenizers are trusted; their whole __dict__ is the configuration']
 SHARD_TIMEOUT = {'quick': 600, 'thorough': 3600}
